@@ -97,6 +97,40 @@ for nb in (1, 2, 3):
                         except KeyError: pass
             except Exception as e:
                 bad('scope mapping crashed: %s %s' % (type(e).__name__, e), doc=text, ops=ops[:])
+# ---- string values through the mapping (seventh round): whatever Python string is assigned, the rebuilt text parses and Nix reads the same
+# string back from it, other keys untouched (strings with `${` are outside the domain of the construction API, as C13 says) — at the top level, in a nested set and in the let scope
+import nixread
+STRS = ['plain', 'x\\', '\\', 'C:\\tmp', 'back\\slash', 'a\\nb', 'q"q', 'q\\"q', '$x', '$ {x}', "''", 'a\nb', 'tab\tx', 'cr\rx', '\\$', 'é→', '', ' ', '#c', '/*', 'a\\\\']
+def str_at(t, path):
+    n = nixread.set_node(nixread.ts(t))
+    if path and path[0] == '@':
+        root = nixread.ts(t); lets = [c for c in root.children if c.type == 'let_expression']
+        if not lets: return None, None
+        n = lets[0]; path = path[1:]
+    for i, seg in enumerate(path):
+        hit = None
+        for b in (nixread.bindings(n) if n is not None and n.type != 'let_expression' else [b for c in n.children if c.type == 'binding_set' for b in c.children]):
+            if b.type == 'binding' and nixread.attr_names(b.child_by_field_name('attrpath')) == [seg]: hit = b.child_by_field_name('expression')
+        if hit is None: return None, None
+        n = hit
+    return n, (nixread.decode_string(n) if n.type == 'string_expression' else None)
+for base, where in [('{\n  a = 1;\n  n = {\n    b = 2;\n  };\n}\n', 'top'), ('{\n  a = 1;\n  n = {\n    b = 2;\n  };\n}\n', 'nested'), ('let\n  v = 1;\nin\n{\n  a = v;\n}\n', 'scope'), ('{ pkgs }:\n{\n  a = 1;\n}\n', 'top')]:
+    for sv in STRS:
+        for again in (False, True):
+            count('string-value/' + where)
+            try:
+                src = parse(base)
+                m = src if where == 'top' else src['n'] if where == 'nested' else src.expressions[0].scope
+                m['k'] = sv
+                if again: m['z'] = 'y'
+                t = src.rebuild(); path = {'top': ['k'], 'nested': ['n', 'k'], 'scope': ['@', 'k']}[where]
+                if nixread.ts(t).has_error: bad('text after assigning a string does not parse', doc=base, value=sv, where=where, text=t); continue
+                node, back = str_at(t, path)
+                if node is None or back != sv: bad('the rebuilt text does not show the assigned string (Nix reads %r, assigned %r)' % (back, sv), doc=base, value=sv, where=where, text=t)
+                keep = {'top': ['a'], 'nested': ['n', 'b'], 'scope': ['@', 'v']}[where]
+                if str_at(t, keep)[0] is None: bad('another key disappeared after assigning a string', doc=base, value=sv, where=where, text=t)
+            except Exception as e:
+                bad('assigning a string crashed: %s %s' % (type(e).__name__, e), doc=base, value=sv, where=where)
 for it in range(N):
     text, shape = gen(); src = parse(text); ops = []
     for step in range(R.randint(1, 6)):
